@@ -44,6 +44,7 @@ def check(c: Check):
     clause_e(c)
     clause_f(c)
     clause_g(c)
+    clause_h(c)
     from .common import sweep_records
     sweep_records(c, 'C10-rec', ['exactly_lib.util.process_execution', 'exactly_lib.util.file_utils', 'exactly_lib.impls.program_execution', 'exactly_lib.type_val_prims.program'], floor=8)
 
@@ -340,34 +341,87 @@ def clause_c(c: Check):
     c.floor('C10-c', 'accumulate methods of program values', n, 3)
     # reference to a program symbol: the referenced program's components first, then those of the reference
     rs = ix.func('exactly_lib.impls.types.program.sdvs.program_symbol_sdv:ProgramSdvForSymbolReference.resolve')
-    ok = False
+
+    def call_of(p, v):
+        """(method name, receiver value, argument values) of the call whose result v is"""
+        o = v.origin if isinstance(v, Sym) else None
+        if not o or o[0] != 'call' or o[5] is None or o[5] >= len(p.trace):
+            return None, None, []
+        e = p.trace[o[5]]
+        recv = e.data.get('recv')
+        if recv is None and e.data.get('callee_val') is not None:
+            recv = util.attr_chain(e.data.get('callee_val'))[0]
+        name = e.node.func.attr if isinstance(e.node.func, ast.Attribute) else unparse(e.node.func)
+        return name, recv, list(e.data['args'])
+
+    def own_components(v, *tail):
+        b, names = util.attr_chain(v) if v is not None else (None, ())
+        return isinstance(b, Obj) and names == ('_accumulated_components',) + tail
+
+    sym_param = rs.positional_params()[1].arg
+    n_paths = 0
     for p in util.func_paths(ix, fo, rs, H()):
-        for e in p.calls():
-            if isinstance(e.node.func, ast.Attribute) and e.node.func.attr == 'new_accumulated':
-                recv = util.attr_chain(e.data.get('callee_val'))[0] if e.data.get('recv') is None else e.data.get('recv')
-                ro = recv.origin if isinstance(recv, Sym) else None
-                a = e.data['args'][0] if e.data['args'] else None
-                ab, an_ = util.attr_chain(a) if a is not None else (None, ())
-                ok = bool(ro) and ro[0] == 'call' and ro[1].endswith('lookup_program') and isinstance(ab, Obj) \
-                     and an_ == ('_accumulated_components',)
-    c.expect(ok, 'C10-c', 'ProgramSdvForSymbolReference.resolve/order',
-             'a reference to a program symbol does not put the components of the referenced program before its own',
-             rs.loc())
-    # command program: the command's own arguments, then the accumulated ones
+        if p.kind != 'return':
+            continue
+        n_paths += 1
+        # the value returned: <looked-up program>.new_accumulated(<all own components>).resolve(symbols)
+        name, recv, args = call_of(p, p.val)
+        ok = name == 'resolve' and len(args) == 1 and _param_chain(args[0]) == (sym_param, ())
+        if ok:
+            name2, recv2, args2 = call_of(p, recv)
+            ro = recv2.origin if isinstance(recv2, Sym) else None
+            ok = name2 == 'new_accumulated' and bool(ro) and ro[0] == 'call' and ro[1].endswith('lookup_program') \
+                 and len(args2) == 1 and own_components(args2[0])
+        c.expect(bool(ok), 'C10-c', 'ProgramSdvForSymbolReference.resolve/order',
+                 'a reference to a program symbol resolves, on the path %s, to %s: not to (the referenced program)'
+                 '.new_accumulated(all components of the reference).resolve(symbols) - components of the reference '
+                 '(arguments, stdin, transformations) are lost or misplaced' % (
+                     [('' if t else 'not ') + unparse(g) for g, t in p.guards],
+                     util.describe(p.val)), rs.loc())
+    c.floor('C10-c', 'returning paths of ProgramSdvForSymbolReference.resolve', n_paths, 1)
+    # command program: the command's own arguments, then the accumulated ones; stdin and transformations from all
+    # the accumulated components
     rc = ix.func('exactly_lib.impls.types.program.sdvs.command_program_sdv:ProgramSdvForCommand.resolve')
-    ok = False
+    sym_param = rc.positional_params()[1].arg
+    n_paths = 0
     for p in util.func_paths(ix, fo, rc, H()):
-        for e in p.calls():
-            if isinstance(e.node.func, ast.Attribute) and e.node.func.attr == 'new_with_additional_arguments':
-                recv = e.data.get('recv')
-                if recv is None:
-                    recv = util.attr_chain(e.data.get('callee_val'))[0]
-                rb, rn = util.attr_chain(recv) if not isinstance(recv, Obj) else (recv, ())
-                a = e.data['args'][0] if e.data['args'] else None
-                ab, an_ = util.attr_chain(a) if a is not None else (None, ())
-                ok = rn[-1:] == ('_command',) and an_[-2:] == ('_accumulated_components', 'arguments')
-    c.expect(ok, 'C10-c', 'ProgramSdvForCommand.resolve/order',
-             'the command is not given its own arguments followed by the accumulated ones', rc.loc())
+        if p.kind != 'return':
+            continue
+        n_paths += 1
+        con = util.constructed(ix, p.val)
+        ok = con is not None and con[0].endswith(':ProgramDdv') and len(con[3]) == 3
+        if ok:
+            cmd, stdin, trans = list(con[3].values())
+            name, recv, args = call_of(p, cmd)
+            ok = name == 'resolve' and len(args) == 1 and _param_chain(args[0]) == (sym_param, ())
+            if ok:
+                name2, recv2, args2 = call_of(p, recv)
+                rb, rn = util.attr_chain(recv2) if recv2 is not None and not isinstance(recv2, Obj) else (recv2, ())
+                ok = name2 == 'new_with_additional_arguments' and rn[-1:] == ('_command',) and len(args2) == 1 \
+                     and own_components(args2[0], 'arguments')
+            for v, meth in ((stdin, 'resolve_stdin'), (trans, 'resolve_transformations')):
+                name3, recv3, args3 = call_of(p, v)
+                ok = ok and name3 == meth and own_components(recv3) and len(args3) == 1 \
+                     and _param_chain(args3[0]) == (sym_param, ())
+        c.expect(bool(ok), 'C10-c', 'ProgramSdvForCommand.resolve/order',
+                 'a command program resolves to %s: not to ProgramDdv(command with its own arguments followed by all '
+                 'accumulated ones, all accumulated stdin, all accumulated transformations)' % util.describe(p.val), rc.loc())
+    c.floor('C10-c', 'returning paths of ProgramSdvForCommand.resolve', n_paths, 1)
+    for meth, comp in (('resolve_stdin', 'stdin'), ('resolve_transformations', 'transformations')):
+        fm = ix.class_member(acc, meth)
+        it = Interp(ix, fo, H())
+        st = State()
+        me = it.new_obj(acc)
+        items = [Sym('%s-%d' % (comp, i)) for i in range(3)]
+        for comp2 in ('stdin', 'transformations'):
+            st.heap[(me.oid, comp2)] = ListVal(list(items) if comp2 == comp else [Sym('other-%d' % i) for i in range(2)], True)
+        paths = it.run_function(fm, {}, st, recv=me)
+        c.require(len(paths) == 1 and paths[0].kind == 'return', 'C10-c: AccumulatedComponents.%s has %d paths' % (meth, len(paths)))
+        from .common import mapped_in_order
+        ok = mapped_in_order(paths[0], paths[0].val, items, 'resolve')
+        c.expect(bool(ok), 'C10-c', 'AccumulatedComponents.%s/every-part-in-order' % meth,
+                 'the accumulated %s parts are resolved to %s (expected: every part resolved, in the accumulated order)' % (
+                     comp, util.describe(paths[0].val)), fm.loc())
     # parse: command and arguments, then stdin, then transformation
     pp_ = ix.func('exactly_lib.impls.types.program.parse.parse_program:_Parser.parse_from_token_parser')
     order = []
@@ -808,3 +862,106 @@ def clause_g(c: Check):
                                  f.key.split(':')[-1], unparse(e.node.func)), '%s:%d' % (f.module.relpath, e.node.lineno))
                     break
     c.floor('C10-g', 'text writers that hand their output file on', n_hand_over, 3)
+
+
+# ---------------------------------------------------------------- h
+SEQ = 'exactly_lib.impls.types.string_transformer.impl.sequence'
+
+
+def clause_h(c: Check):
+    """EVAL: the accumulated transformations of a program reach its execution through the list resolvers
+    (`sequence_resolving.resolve` for primitives, `sequence_resolving_ddv.resolve` for DDVs). Evaluated on explicit
+    lists of 0-3 operands (primitives: every pattern of identity operands) the result must denote the composition
+    of the given operands in the given order: the identity (no operand), one of the operands, or the sequence
+    object built from a list of the operands; identity operands may be dropped or kept (they are no-ops), every
+    other operand must occur exactly once and in the given order."""
+    ix, fo = c.ix, c.fo
+    import itertools
+    ident_cls = ix.cls('exactly_lib.impls.types.string_transformer.impl.identity:IdentityStringTransformer')
+    seq_classes = {ix.cls(SEQ + ':SequenceStringTransformer'), ix.cls(SEQ + ':StringTransformerSequenceDdv')}
+    const_ddv = ix.cls('exactly_lib.type_val_deps.types.string_transformer.ddvs:StringTransformerConstantDdv')
+    prim_cls = ix.cls('exactly_lib.type_val_prims.string_transformer:StringTransformer')
+    ddv_cls = ix.cls('exactly_lib.type_val_deps.types.string_transformer.ddv:StringTransformerDdv')
+
+    class H(Hooks):
+        loop_bound = 4
+
+        def inline(self, fd, st):
+            return False
+
+    def new_cls(v):
+        if isinstance(v, Obj):
+            return v.cls
+        if isinstance(v, Sym) and v.origin and v.origin[0] == 'call' and isinstance(v.cls, ClassDef) \
+                and v.tag.startswith('new:'):
+            return v.cls
+        if isinstance(v, K) and isinstance(v.v, Record):
+            return v.v.cls
+        return None
+
+    def ctor_args(v):
+        if isinstance(v, Sym):
+            return list(v.origin[2]) + list(v.origin[3].values())
+        if isinstance(v, K) and isinstance(v.v, Record):
+            return [K(a) if not isinstance(a, (Sym, Obj, ListVal, K)) else a for a in v.v.args.values()]
+        return []
+
+    def denotes(v, ops) -> Optional[List[int]]:
+        for i, o in enumerate(ops):
+            if v is o:
+                return [i]
+        k = new_cls(v)
+        if k is None:
+            return None
+        if ident_cls in ix.mro(k):
+            return []
+        if k is const_ddv:
+            a = ctor_args(v)
+            return denotes(a[0], ops) if len(a) == 1 else None
+        if k in seq_classes:
+            a = ctor_args(v)
+            if len(a) != 1 or not isinstance(a[0], ListVal):
+                return None
+            out = []
+            for x in a[0].items:
+                d = denotes(x, ops)
+                if d is None:
+                    return None
+                out += d
+            return out
+        return None
+
+    n = 0
+    for key, elem_cls, with_flags in (
+            ('exactly_lib.impls.types.string_transformer.sequence_resolving:resolve', prim_cls, True),
+            ('exactly_lib.impls.types.string_transformer.sequence_resolving_ddv:resolve', ddv_cls, False)):
+        f = ix.func(key)
+        pp = f.positional_params()
+        c.require(len(pp) == 1, 'C10-h: %s does not take one list' % key)
+        for width in (0, 1, 2, 3):
+            for flags in (itertools.product((False, True), repeat=width) if with_flags else [(False,) * width]):
+                it = Interp(ix, fo, H())
+                st0 = State()
+                ops = []
+                for is_id in flags:
+                    o = it.new_obj(elem_cls)
+                    if with_flags:
+                        st0.heap[(o.oid, 'is_identity_transformer')] = K(is_id)
+                    ops.append(o)
+                desc = '[%s]' % ', '.join('identity' if fl else 't%d' % i for i, fl in enumerate(flags))
+                paths = it.run_function(f, {pp[0].arg: ListVal(list(ops))}, st0)
+                n += 1
+                c.count()
+                want = [i for i, fl in enumerate(flags) if not fl]
+                for p in paths:
+                    if p.kind != 'return':
+                        c.bad('C10-h', '%s/%s' % (key.split('.')[-1], desc),
+                              '%s raises for the operand list %s' % (f.key, desc), f.loc())
+                        continue
+                    got = denotes(p.val, ops)
+                    c.expect(got is not None and [i for i in got if not flags[i]] == want, 'C10-h', '%s/%s' % (key.split('.')[-1], desc),
+                             'the transformations %s of a program are resolved to %s (expected the composition of %s '
+                             'in that order): the output of the program is transformed by something else than what '
+                             'was accumulated' % (desc, 'operands %s' % got if got is not None else 'a value that is '
+                                                  'not built from the operands', want), f.loc())
+    c.floor('C10-h', 'operand lists the transformer-list resolvers are evaluated on', n, 19)
